@@ -814,8 +814,8 @@ def part_tcp(ctx, registry, n_random, n_silent, n_batch):
 
 def run(ctx):
     from rpyc.utils import registry
-    part_histories(ctx, registry, ctx.budget(5000, 1000000))
-    part_udp(ctx, registry, ctx.budget(300, 40000))
+    part_histories(ctx, registry, ctx.budget(5000, 5000000))
+    part_udp(ctx, registry, ctx.budget(300, 120000))
     part_tcp(ctx, registry, ctx.budget(150, 12000), ctx.budget(2, 48), ctx.budget(30, 4800))
     c = ctx.counters
     if not ctx.violations:
